@@ -16,15 +16,15 @@
 EXTENDS Tty, Json
 
 CONSTANTS Tmo,        \* query timeout / positive read timeout in ticks
-          AllWords    \* TRUE: query-type operations from all 12 words, else from 4
+          AllWords    \* TRUE: query-type operations from all 12 words, else from 3
 
-VARIABLES par, m, e, fired, hist
-vars == <<par, m, e, fired, hist>>
+VARIABLES par, m, e, fired, exm, hist
+vars == <<par, m, e, fired, exm, hist>>
 
 Words == {[icanon |-> c, echo |-> ec, vmin |-> mt[1], vtime |-> mt[2], rest |-> 0] :
             c \in BOOLEAN, ec \in BOOLEAN, mt \in {<<1, 0>>, <<0, 0>>, <<0, 5>>}}
 FewWords == {w \in Words : <<w.icanon, w.echo, w.vmin, w.vtime>> \in
-               {<<TRUE, TRUE, 1, 0>>, <<FALSE, FALSE, 0, 0>>, <<TRUE, FALSE, 0, 5>>, <<FALSE, TRUE, 1, 0>>}}
+               {<<TRUE, TRUE, 1, 0>>, <<FALSE, FALSE, 0, 0>>, <<TRUE, FALSE, 0, 5>>}}
 Win0 == [cols |-> 80, rows |-> 24, xpx |-> 0, ypx |-> 0]
 
 T0 == [sup |-> {"fg", "xtv", "cell", "da1"},
@@ -82,6 +82,7 @@ Init ==
   /\ m = Start(Cfg, par.case.opx)
   /\ e = Env0(par.case, par.attr0)
   /\ fired = FALSE
+  /\ exm = FALSE
   /\ hist = <<>>
 
 Exempt == OutermostCleanup(m) /\ (par.fault.when = "before" \/ Top(m).pc = "d_fin")
@@ -95,6 +96,7 @@ Sys(call) ==
        /\ m' = Feed(m, IF hit THEN ResRaise("InjectedFault") ELSE r.res)
        /\ e' = IF hit /\ par.fault.when = "before" THEN [e EXCEPT !.nsys = @ + 1] ELSE [r.env EXCEPT !.nsys = @ + 1]
        /\ fired' = (fired \/ hit)
+       /\ exm' = (exm \/ (par.fault.k = e.nsys + 1 /\ Exempt))
        /\ hist' = Append(hist, call)
   /\ UNCHANGED par
 
@@ -128,7 +130,7 @@ ModeIsChanged ==
 Report ==
   Done => PrintT(<<"FAULT", ToJson(
     [opx |-> par.case.opx, pred |-> par.case.pred, preload |-> par.case.preload, sched |-> par.case.sched,
-     attr0 |-> par.attr0, fault |-> par.fault, fired |-> fired, tmo |-> Tmo, term |-> T0,
+     attr0 |-> par.attr0, fault |-> par.fault, fired |-> fired, exempt |-> exm, tmo |-> Tmo, term |-> T0,
      enabled |-> TRUE, swap |-> FALSE, win |-> Win0, ioctlFails |-> FALSE,
      exp |-> [status |-> m.status, kind |-> m.exc, nsys |-> e.nsys, attr |-> e.attr, calls |-> hist,
               rb |-> m.rb, rnone |-> m.rnone]])>>)
